@@ -448,3 +448,71 @@ Proof.
   destruct (run_grows _ _ _ H2) as (A & B). split; [exact A|]. apply B.
   destruct (winv_run os _ _ [] (winv_init fmap) H1) as (res & W & _). exact (wi_names _ _ W).
 Qed.
+
+(** * A named [write_for] anywhere in a run is a segment of the final map *)
+
+Lemma is_prefix_app_r : forall a b x, is_prefix a b = true -> is_prefix a (b ++ x) = true.
+Proof.
+  induction a as [|c a IH]; intros b x H; [reflexivity|]. destruct b as [|d b]; [discriminate|].
+  cbn [is_prefix app] in *. apply andb_true_iff in H as [H1 H2]. rewrite H1, (IH _ _ H2). reflexivity.
+Qed.
+
+(** [named_segment_text] and the invariant together, with the same two entries *)
+Lemma named_step : forall s res chunk p nm s',
+  winv s res -> p_builtin p = false -> sw_write_for s chunk p (Some nm) = Some s' ->
+  exists e1 e2 pre post k,
+    winv s' (e2 :: e1 :: res) /\
+    c_buf (sw_cur s') = pre ++ post /\ end_pos pre = epos e1 /\ is_prefix (hd [] (split_on LF chunk)) post = true /\
+    e_ol e1 = p_line p /\ e_oc e1 = p_col p /\ e_ni e1 = Some k /\
+    nth_error (nm_all (sw_names s')) (N.to_nat k) = Some nm /\
+    fmap_lookup (sw_fmap s) (p_file p) = Some (e_fi e1) /\ sw_fmap s' = sw_fmap s.
+Proof.
+  intros s res chunk p nm s' W Hb H. unfold sw_write_for in H. rewrite Hb in H. unfold bind in H at 1.
+  destruct (match sw_fmap s with Some m => nth_error m (N.to_nat (p_file p)) | None => Some (p_file p) end) as [fi|] eqn:Efi; [|discriminate].
+  destruct (map_name (sw_names s) nm) as [names' ni] eqn:En.
+  destruct (map_name_spec _ _ _ _ En (wi_names _ _ W)) as (Hc' & Hnth & _).
+  unfold bind in H.
+  match type of H with match add_entry _ ?x with _ => _ end = _ => set (e1 := x) in * end.
+  destruct (add_entry (sw_map s) e1) as [m1|] eqn:E1; [|discriminate].
+  destruct (uadd (p_col p) (utf16_len nm)) as [endcol|]; [|discriminate].
+  match type of H with match add_entry _ ?x with _ => _ end = _ => set (e2 := x) in * end.
+  destruct (add_entry m1 e2) as [m2|] eqn:E2; [|discriminate]. injection H as <-.
+  set (c1 := flush (sw_ind s) (sw_cur s)) in *.
+  destruct (write_first_line (sw_ind s) c1 chunk (flush_flag _ _)) as (y & Hy).
+  pose proof (winv_move s res _ W (extends_flush (sw_ind s) (sw_cur s))) as W1.
+  pose proof (winv_entry _ _ e1 m1 names' W1 eq_refl E1 Hc') as W2. cbn [sw_cur sw_ind sw_map sw_names sw_fmap] in W2.
+  pose proof (winv_move _ _ _ W2 (extends_write (sw_ind s) (flush (sw_ind s) (sw_cur s)) chunk)) as W3.
+  cbn [sw_cur sw_ind sw_map sw_names sw_fmap] in W3.
+  pose proof (winv_entry _ _ e2 m2 names' W3 eq_refl E2 Hc') as W4. cbn [sw_cur sw_ind sw_map sw_names sw_fmap] in W4.
+  exists e1, e2, (c_buf c1), (hd [] (split_on LF chunk) ++ y), ni. cbn [sw_cur sw_map sw_names sw_fmap].
+  split; [exact W4|]. split; [exact Hy|]. split; [exact (wi_pos _ _ W1)|]. split; [apply is_prefix_app|].
+  repeat split; try reflexivity; try exact Hnth. exact Efi.
+Qed.
+
+Lemma named_write_for_mapped_lemma : forall fmap os s chunk p nm,
+  sw_run fmap os = Some s -> In (WF chunk p (Some nm)) os -> p_builtin p = false ->
+  exists es e pre post k,
+    decode_mappings (mbuf (sw_map s)) = Some (map seg_of_entry es) /\ In e es /\
+    c_buf (sw_cur s) = pre ++ post /\ end_pos pre = epos e /\ is_prefix (hd [] (split_on LF chunk)) post = true /\
+    e_ol e = p_line p /\ e_oc e = p_col p /\ e_ni e = Some k /\
+    nth_error (nm_all (sw_names s)) (N.to_nat k) = Some nm /\
+    fmap_lookup fmap (p_file p) = Some (e_fi e).
+Proof.
+  intros fmap os s chunk p nm H Hin Hb.
+  destruct (in_split _ _ Hin) as (os1 & os2 & ->).
+  unfold sw_run in H. rewrite sw_run_from_app in H. unfold bind in H.
+  destruct (sw_run_from (sw_init fmap) os1) as [s1|] eqn:R1; [|discriminate].
+  cbn [sw_run_from] in H. unfold bind in H. cbn [sw_step] in H.
+  destruct (sw_write_for s1 chunk p (Some nm)) as [s2|] eqn:R2; [|discriminate].
+  destruct (winv_run os1 _ _ [] (winv_init fmap) R1) as (res1 & W1 & _ & M1). rewrite app_nil_r in W1.
+  destruct (named_step _ _ _ _ _ _ W1 Hb R2) as (e1 & e2 & pre & post & k & W2 & Hbuf & Hpos & Hpre & Hol & Hoc & Hni & Hnm & Hfi & M2).
+  destruct (winv_run os2 _ _ _ W2 H) as (res3 & W3 & _ & _).
+  destruct (run_grows _ _ _ H) as ((x & Hx) & Hn). destruct (Hn (wi_names _ _ W2)) as (ext & Hext).
+  exists (rev (res3 ++ e2 :: e1 :: res1)), e1, pre, (post ++ x), k.
+  split; [apply mappings_decode_lemma, (wi_map _ _ W3)|].
+  split; [apply -> in_rev; apply in_or_app; right; right; left; reflexivity|].
+  split; [rewrite Hx, Hbuf, app_assoc; reflexivity|]. split; [exact Hpos|].
+  split; [apply is_prefix_app_r, Hpre|]. split; [exact Hol|]. split; [exact Hoc|]. split; [exact Hni|].
+  split; [rewrite Hext; rewrite nth_error_app1; [exact Hnm | apply nth_error_Some; rewrite Hnm; discriminate]|].
+  rewrite M1 in Hfi. exact Hfi.
+Qed.
